@@ -50,6 +50,17 @@ fn apply<R: ByteReader>(r: &mut R, op: &str, n: usize, alt: bool) -> (String, Ve
         "more" => ("ok".into(), vec![r.has_more_bytes() as u8]),
         "eor" => res(r.check_eor(n), |_| vec![]),
         "usize" => res(r.read_usize(), |v| (v as u64).to_le_bytes().to_vec()),
+        // a request of 2^n bytes (n >= 64: usize::MAX), e.g. a length prefix taken from the data
+        "hslice" | "heor" => {
+            let len = if n >= 64 { usize::MAX } else { 1usize << n };
+            if op == "heor" {
+                res(r.check_eor(len), |_| vec![])
+            } else if alt {
+                res(r.read_vec(len), |v| v)
+            } else {
+                res(r.read_slice(len), |s| s.to_vec())
+            }
+        },
         "slice" => {
             if alt {
                 res(r.read_vec(n), |v| v)
@@ -103,7 +114,7 @@ fn run_one(idx: usize, sc: &Value) -> Option<Value> {
             Err(p) => ("panic".to_string(), vec![], p),
         };
         // check_eor may be optimistic: only "data available => ok" is required
-        let lenient_ok = name == "eor" && exp_t == "eof" && (at == "ok" || at == "eof");
+        let lenient_ok = (name == "eor" || name == "heor") && exp_t == "eof" && (at == "ok" || at == "eof");
         if !lenient_ok && (at != exp_t || (at == "ok" && av != exp_v)) {
             return Some(json!({"at": k, "reader": "ReadAdapter", "op": name, "n": n, "panic": pmsg,
                 "expected": {"t": exp_t, "v": json_bytes(&exp_v)}, "got": {"t": at, "v": json_bytes(&av)}}));
